@@ -359,9 +359,10 @@ PROPS = {
     },
     "C10": {
         "manifest": {
-            "text": "Lean 4 (Props/C10.lean, 28 theorems): on the Spec: locate_eq, locate_no_ecs, scope_zero_without_map, "
+            "text": "Lean 4 (Props/C10.lean, 30 theorems): on the Spec: locate_eq, locate_no_ecs, scope_zero_without_map, "
                     "scope_default(_untagged), scope_winner, scope_some_iff, resolver_fallback, scope_bounds (the echoed scope "
-                    "never exceeds 32/128 and is the matched subnet's length); on the model of Reader.EcsLocation / "
+                    "never exceeds 32/128 and is the matched subnet's length), scope_le_source (a matched scope never exceeds the "
+                    "source length sent), scope_independent_of_resolver; on the model of Reader.EcsLocation / "
                     "FindLocation / the handler's OPT assembly: ecsLocation_eq, ecs_scope_model, findLocation_eq, "
                     "ecs_scope_no_map / _default / _found(_untagged), top_none, top_ecs_none / _location / _fail, "
                     "top_scope_model, top_resolver_fallback, ecs_fields_unchanged (family, source length and address are "
